@@ -135,7 +135,9 @@ impl LspServer {
             self.send(&format!(r#"{{"jsonrpc":"2.0","method":"textDocument/didOpen","params":{{"textDocument":{{"uri":"file:///t.bas","languageId":"abasic","version":1,"text":{}}}}}}}"#, t));
             self.opened = true;
         } else {
-            self.send(&format!(r#"{{"jsonrpc":"2.0","method":"textDocument/didChange","params":{{"textDocument":{{"uri":"file:///t.bas","version":2}},"contentChanges":[{{"text":{}}}]}}}}"#, t));
+            // a notification may carry several changes; they apply in order, so the last one is the document
+            let stale = if text.len() % 3 == 0 { r#"{"text":"10 PRINT \"stale\n20 GOTO 77"},"# } else { "" };
+            self.send(&format!(r#"{{"jsonrpc":"2.0","method":"textDocument/didChange","params":{{"textDocument":{{"uri":"file:///t.bas","version":2}},"contentChanges":[{}{{"text":{}}}]}}}}"#, stale, t));
         }
         let id = self.next_id;
         self.next_id += 1;
